@@ -4,7 +4,8 @@ import impl, proto, gen, random
 def run_case(case):
     """case: dict(src, opts, multi, files, thresh). Returns picklable summary."""
     r = impl.run_tex2txt(case['src'], case.get('opts') or {}, multi=case.get('multi', False),
-                         files=case.get('files'), thresh=case.get('thresh'), timeout=case.get('timeout', 10))
+                         files=case.get('files'), thresh=case.get('thresh'), timeout=case.get('timeout', 10),
+                         cap_lines=case.get('cap_lines', 0))
     out = {'outcome': r['outcome'], 'exc': r.get('exc'), 'site': r.get('site'), 'stderr': r['stderr'],
            'unknowns': r.get('unknowns'), 'trace': r.get('trace')}
     if r['outcome'] == 'ok':
@@ -19,6 +20,7 @@ def run_case(case):
         except Exception as e:
             out['toks'] = None
     out['lang_change'] = r.get('lang_change')
+    out['lines_inputs'] = r.get('lines_inputs')
     return out
 
 def all_parts(res, case):
@@ -65,6 +67,9 @@ def doc_cases(ctx, n, profile=None, with_mut=True, with_soup=True, opts_fn=None)
             for e in rng.sample(ends, min(3, len(ends))):
                 cases.append({'src': src[:e], 'opts': opts, 'multi': base['multi'], 'thresh': base.get('thresh'),
                               'kind': 'edge', 'words': None})
+    for r in gen.edge_docs(rng, k=max(2, n // 120)):
+        cases.append({'src': r.src(), 'opts': dict(gen.gen_options(rng), pack=rng.choice(['*', '*', 'glossaries'])),
+                      'multi': rng.random() < 0.2, 'kind': 'edge2', 'words': r.words})
     if with_soup:
         for _ in range(n // 2):
             cases.append({'src': gen.soup(rng), 'opts': (opts_fn or gen.gen_options)(rng), 'multi': rng.random() < 0.2,
